@@ -188,11 +188,16 @@ def writer_fault_task(task):
     tmp = tempfile.mkdtemp(prefix="verif_c20w_")
     try:
         rng = np.random.default_rng([task["seed"], 2020])
-        rows, samples = inputs.make_table(rng, 4, 2)
+        rows, samples = inputs.make_table(rng, 4 if not task.get("clustered") else 6, 2)
         in_file = os.path.join(tmp, "in.tsv")
         inputs.write_table(rows, in_file)
         base = ["run", "-i", in_file, "-n", "4", "-b", "1", "--num-particles", "4", "--grid-size", "11", "--seed", "7",
                 "--num-chains", str(task["chains"])]
+        if task.get("clustered"):
+            crow, _ = inputs.make_clusters(rng, rows, 3)
+            cl_file = os.path.join(tmp, "cl.tsv")
+            inputs.write_table(crow, cl_file)
+            base += ["-c", cl_file]
         ref = os.path.join(tmp, "ref.pkl.gz")
         p = phyclone_cli(base + ["-o", ref], cli_env())
         if p.returncode != 0:
@@ -210,12 +215,20 @@ def writer_fault_task(task):
             ref_out[name] = open(os.path.join(tmp, "m.tsv"), "rb").read() + open(os.path.join(tmp, "m.nwk"), "rb").read()
         for at in task["cuts"]:
             n = int(at * size) if isinstance(at, float) else (size + at if at < 0 else at)
-            n = max(0, min(size - 1, n))
+            n = max(0, n) if task.get("cumulative") else max(0, min(size - 1, n))
             for mode in task["modes"]:
                 out = os.path.join(tmp, "cut_%d_%s.pkl.gz" % (n, mode))
-                env = cli_env({"VERIF_WRITE_FAULT": json.dumps({"at": n, "mode": mode})})
+                marker = os.path.join(tmp, "fault_%d_%s.marker" % (n, mode))
+                env = cli_env({"VERIF_WRITE_FAULT": json.dumps({"at": n, "mode": mode, "cumulative": bool(task.get("cumulative")),
+                                                                "marker": marker})})
                 p = phyclone_cli(base + ["-o", out], env)
                 part.count("evaluations")
+                if not os.path.exists(marker):
+                    # the run wrote fewer bytes than the fault position (one write of the trace only): nothing was cut
+                    part.count("writer_fault_position_beyond_what_the_run_writes")
+                    if p.returncode != 0:
+                        part.violation("phyclone run fails although no write fault was injected", {"output": p.stdout[-400:]})
+                    continue
                 part.count("writer_faults_injected")
                 part.see("fault|%s|%d|%d" % (mode, task["chains"], n))
                 if p.returncode == 0:
@@ -359,6 +372,10 @@ def run(ctx):
         cuts = [0, 5, 0.5, -4] if quick else [0, 3, 10, 0.1, 0.5, 0.9, -9, -8, -4, -1]
         wt = [{"kind": "writer", "seed": ctx.seed, "chains": 1, "cuts": [c], "modes": [m]}
               for c in cuts for m in ("kill", "enospc")]
+        # a pre-clustered run, fault position counted over everything the process writes (a writer that saves the trace
+        # in more than one pass is cut in its later passes too)
+        wt += [{"kind": "writer", "seed": ctx.seed + 2, "chains": 1, "clustered": True, "cumulative": True, "cuts": [c], "modes": [m]}
+               for c in ((0.5, 1.4) if quick else (0.2, 0.9, 1.1, 1.4, 1.8, 1.99)) for m in ("kill", "enospc")]
         if not quick:
             wt += [{"kind": "writer", "seed": ctx.seed + 1, "chains": 2, "cuts": [c], "modes": [m]}
                    for c in (0.3, -5) for m in ("kill", "enospc")]
